@@ -35,7 +35,10 @@ struct unique_ptr {
 	}
 
 	unique_ptr &operator=(unique_ptr &&p) {
-		swap(*this, p);
+		// Take the new object out of p before the old one goes away: p may be
+		// a member of the object that we own (head = std::move(head->next)).
+		unique_ptr tmp{std::move(p)};
+		swap(*this, tmp);
 		return *this;
 	}
 
